@@ -39,6 +39,9 @@ MIDF = z3.Function('MID', R, K, R)
 MIDNAN = z3.Function('MID_IS_NAN', R, K, B)
 OPENF = z3.Function('EXCHANGE_OPEN', R, B)
 FEEF = z3.Function('FEE', K, R, R, R)                   # fee model family: a function of (asset, quantity, consideration)
+# opaque form of a portfolio's market value (a function of its three arrays; harnesses that only ADD UP per-portfolio figures
+# do not need the definition SUM qty x price - the L1 valuation harness proves it - and the non-linear lambda makes z3 crawl)
+TMV_OF = z3.Function('TMV_OF', AKB, AKR, AKR, R)
 REPORTF = {f: z3.Function('REPORT_' + f.upper(), K, K, R) for f in ('unrealised_pnl', 'realised_pnl', 'total_pnl')}
 
 CURRENCIES = ('USD', 'GBP', 'EUR')
@@ -295,6 +298,8 @@ class PortfolioAt:
     def total_market_value(self):
         W, p = self.W, self.p
         a = z3.Const('__a', K)
+        if getattr(W, 'opaque_valuation', False):
+            return SymNum(TMV_OF(z3.Select(W.held, p), z3.Select(W.price, p), z3.Select(W.qty, p)))
         return SymNum(heap.SUM(z3.Select(W.held, p), z3.Lambda([a], z3.Select(z3.Select(W.price, p), a) * z3.Select(z3.Select(W.qty, p), a))))
 
     @property
@@ -570,6 +575,8 @@ class World:
         s = snap or self.__dict__
         p = liftk(p)
         a = z3.Const('__a', K)
+        if getattr(self, 'opaque_valuation', False):
+            return SymNum(TMV_OF(z3.Select(s['held'], p), z3.Select(s['price'], p), z3.Select(s['qty'], p)))
         return SymNum(heap.SUM(z3.Select(s['held'], p), z3.Lambda([a], z3.Select(z3.Select(s['price'], p), a) * z3.Select(z3.Select(s['qty'], p), a))))
 
     def equity(self, p, snap=None):
